@@ -23,7 +23,7 @@ def c(op, **kw):
     d = {"op": op}; d.update(kw); return d
 
 def simple_sub(tag_where=True):
-    calls = [c("column", c="t1_id"), c("from", t=["t2"])]
+    calls = [c("column", n="t1_id"), c("from", t=["t2"])]
     if tag_where: calls.append(c("and_where", e=bin_("GreaterThan", col("x"), val())))
     return sel(*calls)
 
@@ -36,13 +36,13 @@ def menu():
     _tag[0] = 1000
     select = [
         # selects (always at least one)
-        [[c("column", c="id")], [c("column", c="id"), c("expr_as", e=bin_("Add", col("a"), val()), a="s")],
-         [c("expr", e=fn("Coalesce", col("b"), val())), c("column", c="a")],
-         [c("column", c="id"), c("expr", e={"k": "case", "whens": [{"c": eq(col("a"), val()), "r": val("String")}], "else": val("String")})],
-         [c("column", c="a"), c("expr_window", e=fn("Sum", col("a")), w=win(True), a="w")],
-         [c("column", c="a"), c("expr_window_name", e=fn("Sum", col("a")), w="w1", a="w")]],
+        [[c("column", n="id")], [c("column", n="id"), c("expr_as", e=bin_("Add", col("a"), val()), a="s")],
+         [c("expr", e=fn("Coalesce", col("b"), val())), c("column", n="a")],
+         [c("column", n="id"), c("expr", e={"k": "case", "whens": [{"c": eq(col("a"), val()), "r": val("String")}], "else": val("String")})],
+         [c("column", n="a"), c("expr_window", e=fn("Sum", col("a")), w=win(True), a="w")],
+         [c("column", n="a"), c("expr_window_name", e=fn("Sum", col("a")), w="w1", a="w")]],
         [[], [c("distinct")]],
-        [[c("from", t=["t1"])], [c("from_as", t=["t1"], a="u")], [c("from_subquery", q=sel(c("column", c="id"), c("column", c="a"), c("column", c="b"), c("from", t=["t1"]), c("and_where", e=bin_("SmallerThan", col("a"), val()))), a="t1")],
+        [[c("from", t=["t1"])], [c("from_as", t=["t1"], a="u")], [c("from_subquery", q=sel(c("column", n="id"), c("column", n="a"), c("column", n="b"), c("from", t=["t1"]), c("and_where", e=bin_("SmallerThan", col("a"), val()))), a="t1")],
          [c("from", t=["t1"]), c("from", t=["t2"])]],
         [[], [c("join", jt="Inner", t=["t2"], on=bin_("Equal", tcol("t1", "id"), tcol("t2", "t1_id")))],
          [c("join", jt="Left", t=["t2"], on=cond("all", False, [bin_("Equal", tcol("t1", "id"), tcol("t2", "t1_id")), bin_("GreaterThan", tcol("t2", "x"), val())]))],
@@ -51,23 +51,23 @@ def menu():
          [c("cond_where", c=cond("any", False, [eq(col("a"), val()), {"k": "in", "neg": False, "e": col("b"), "vs": [val(), val()]}]))],
          [c("and_where", e={"k": "insub", "neg": False, "e": col("id"), "q": simple_sub()})],
          [c("and_where", e={"k": "between", "neg": False, "e": col("a"), "a": val(), "b": val()}), c("and_where", e={"k": "like", "neg": False, "e": col("c"), "p": "x%", "esc": "|"})]],
-        [[], [c("group_by_col", c="a")], [c("group_by_col", c="a"), c("group_by", e=bin_("Mod", col("b"), val()))]],
+        [[], [c("group_by_col", n="a")], [c("group_by_col", n="a"), c("group_by", e=bin_("Mod", col("b"), val()))]],
         [[], [c("and_having", e=bin_("GreaterThan", fn("Count", col("id")), val()))]],
-        [[], [c("union", type="All", q=sel(c("column", c="id"), c("from", t=["t2"]), c("and_where", e=eq(col("x"), val()))))],
-         [c("union", type="Distinct", q=sel(c("column", c="id"), c("from", t=["t2"]))), c("union", type="Except", q=sel(c("column", c="t1_id"), c("from", t=["t2"]), c("and_where", e=eq(col("x"), val()))))],
-         [c("union", type="Intersect", q=sel(c("column", c="id"), c("from", t=["t2"])))]],
+        [[], [c("union", type="All", q=sel(c("column", n="id"), c("from", t=["t2"]), c("and_where", e=eq(col("x"), val()))))],
+         [c("union", type="Distinct", q=sel(c("column", n="id"), c("from", t=["t2"]))), c("union", type="Except", q=sel(c("column", n="t1_id"), c("from", t=["t2"]), c("and_where", e=eq(col("x"), val()))))],
+         [c("union", type="Intersect", q=sel(c("column", n="id"), c("from", t=["t2"])))]],
         [[], [c("order_by", e=col("a"), o={"d": "Asc"})], [c("order_by", e=col("a"), o={"d": "Desc"}, nulls="Last"), c("order_by", e=col("id"), o={"d": "Asc"})],
          [c("order_by", e=col("a"), o={"d": "Field", "field": [V(), V()]})], [c("order_by", e=bin_("Add", col("a"), val()), o={"d": "Asc"}, nulls="First")]],
         [[], [c("limit", n=3)], [c("limit", n=3), c("offset", n=1)]],
         [[], [c("lock", type="Update")], [c("lock", type="Share", tables=[["t1"]], behavior="SkipLocked")]],
         [[], [c("window", name="w1", w=win(False))], [c("window", name="w1", w=win(True))]],
-        [[], [c("with_cte", w={"ctes": [{"name": "cte", "cols": ["k"], "q": sel(c("column", c="id"), c("from", t=["t2"]), c("and_where", e=eq(col("x"), val())))}]})]],
+        [[], [c("with_cte", w={"ctes": [{"name": "cte", "cols": ["k"], "q": sel(c("column", n="id"), c("from", t=["t2"]), c("and_where", e=eq(col("x"), val())))}]})]],
     ]
     insert = [
         [[c("into_table", t=["t1"])]],
         [[c("columns", cols=["a", "b"]), c("values_panic", row=[val(), val()])],
          [c("columns", cols=["a", "b"]), c("values_panic", row=[val(), val()]), c("values_panic", row=[val(), bin_("Add", val(), val())])],
-         [c("columns", cols=["a", "b"]), c("select_from", q=sel(c("column", c="x"), c("expr", e=val()), c("from", t=["t2"]), c("and_where", e=eq(col("x"), val()))))],
+         [c("columns", cols=["a", "b"]), c("select_from", q=sel(c("column", n="x"), c("expr", e=val()), c("from", t=["t2"]), c("and_where", e=eq(col("x"), val()))))],
          [c("or_default_values")], [c("or_default_values_many", n=2)],
          [c("columns", cols=["a", "c"]), c("values_panic", row=[val(), val("String")])]],
         [[], [c("replace")]],
@@ -77,18 +77,18 @@ def menu():
          [c("on_conflict", oc={"cols": ["id"], "target_where": bin_("GreaterThan", col("id"), val()), "action": {"update_cols": ["a", "b"]}})],
          [c("on_conflict", oc={"cols": ["id"], "action": {"nothing_on": ["id"]}})]],
         [[], [c("returning", r={"all": True})], [c("returning", r={"cols": ["id"]})], [c("returning", r={"exprs": [bin_("Add", col("a"), val())]})]],
-        [[], [c("with_cte", w={"ctes": [{"name": "cte", "cols": ["k"], "q": sel(c("column", c="id"), c("from", t=["t2"]), c("and_where", e=eq(col("x"), val())))}]})]],
+        [[], [c("with_cte", w={"ctes": [{"name": "cte", "cols": ["k"], "q": sel(c("column", n="id"), c("from", t=["t2"]), c("and_where", e=eq(col("x"), val())))}]})]],
     ]
     update = [
         [[c("table", t=["t1"])]],
-        [[c("value", c="a", e=val())], [c("value", c="a", e=val()), c("value", c="c", e=val("String"))], [c("value", c="a", e=bin_("Add", col("a"), val()))]],
+        [[c("value", col="a", e=val())], [c("value", col="a", e=val()), c("value", col="c", e=val("String"))], [c("value", col="a", e=bin_("Add", col("a"), val()))]],
         [[], [c("from", t=["t2"])], [c("from", t=["t2"]), c("from", t=["t3"])]],
         [[], [c("and_where", e=eq(col("b"), val()))], [c("cond_where", c=cond("any", False, [eq(col("b"), val()), eq(col("b"), val())]))],
          [c("and_where", e=bin_("Equal", tcol("t1", "id"), tcol("t2", "t1_id"))), c("and_where", e=bin_("GreaterThan", tcol("t2", "x"), val()))]],
         [[], [c("order_by", e=col("id"), o={"d": "Desc"})], [c("order_by", e=col("b"), o={"d": "Asc"}, nulls="Last")]],
         [[], [c("limit", n=2)]],
         [[], [c("returning", r={"all": True})], [c("returning", r={"exprs": [bin_("Mul", col("a"), val())]})]],
-        [[], [c("with_cte", w={"ctes": [{"name": "cte", "cols": ["k"], "q": sel(c("column", c="id"), c("from", t=["t2"]), c("and_where", e=eq(col("x"), val())))}]})]],
+        [[], [c("with_cte", w={"ctes": [{"name": "cte", "cols": ["k"], "q": sel(c("column", n="id"), c("from", t=["t2"]), c("and_where", e=eq(col("x"), val())))}]})]],
     ]
     delete = [
         [[c("from_table", t=["t1"])]],
@@ -97,7 +97,7 @@ def menu():
         [[], [c("order_by", e=col("id"), o={"d": "Desc"})], [c("order_by", e=col("a"), o={"d": "Field", "field": [V(), V()]})]],
         [[], [c("limit", n=2)]],
         [[], [c("returning", r={"all": True})], [c("returning", r={"cols": ["id", "a"]})]],
-        [[], [c("with_cte", w={"ctes": [{"name": "cte", "cols": ["k"], "q": sel(c("column", c="id"), c("from", t=["t2"]), c("and_where", e=eq(col("x"), val())))}]})]],
+        [[], [c("with_cte", w={"ctes": [{"name": "cte", "cols": ["k"], "q": sel(c("column", n="id"), c("from", t=["t2"]), c("and_where", e=eq(col("x"), val())))}]})]],
     ]
     return {"select": select, "insert": insert, "update": update, "delete": delete}
 
@@ -136,10 +136,10 @@ def rand_select(rng, depth, single=False):
         calls.append(c("with_cte", w={"ctes": [{"name": "cte", "cols": ["k"], "q": rand_select(rng, depth - 1, single=True)}]}))
     n = 1 if single else rng.randint(1, 3)
     for i in range(n):
-        if single or rng.random() < 0.5: calls.append(c("column", c=rng.choice(cols)))
+        if single or rng.random() < 0.5: calls.append(c("column", n=rng.choice(cols)))
         else: calls.append(c("expr_as", e=rand_expr(rng, 2, cols), a="e%d" % i))
     if depth > 0 and rng.random() < 0.25:
-        calls.append(c("from_subquery", q=sel(*( [c("column", c=x) for x in cols] + [c("from", t=[t]), c("and_where", e=rand_expr(rng, 1, cols))])), a=t))
+        calls.append(c("from_subquery", q=sel(*( [c("column", n=x) for x in cols] + [c("from", t=[t]), c("and_where", e=rand_expr(rng, 1, cols))])), a=t))
     else:
         calls.append(c("from", t=[t]))
     for _ in range(rng.randint(0, 2)):
@@ -157,7 +157,7 @@ def rand_select(rng, depth, single=False):
 def rand_select_n(rng, depth, n):
     t = "t2"
     cols = ["id", "t1_id", "x"]
-    calls = [c("column", c=cols[i % 3]) for i in range(n)] + [c("from", t=[t])]
+    calls = [c("column", n=cols[i % 3]) for i in range(n)] + [c("from", t=[t])]
     if rng.random() < 0.6: calls.append(c("and_where", e=rand_expr(rng, 1, cols)))
     return sel(*calls)
 
@@ -175,7 +175,7 @@ def rand_stmt(rng):
         if rng.random() < 0.4: calls.append(c("returning", r={"exprs": [rand_expr(rng, 1, cols)]}))
         return {"kind": "insert", "calls": calls}
     if k < 0.86:
-        calls = [c("table", t=["t1"])] + [c("value", c=x, e=rand_expr(rng, 1, cols)) for x in rng.sample(["a", "b"], rng.randint(1, 2))]
+        calls = [c("table", t=["t1"])] + [c("value", col=x, e=rand_expr(rng, 1, cols)) for x in rng.sample(["a", "b"], rng.randint(1, 2))]
         for _ in range(rng.randint(0, 2)): calls.append(c("and_where", e=rand_expr(rng, 2, cols)))
         if rng.random() < 0.3: calls += [c("order_by", e=col("id"), o={"d": "Asc"}), c("limit", n=rng.randint(1, 4))]
         if rng.random() < 0.3: calls.append(c("returning", r={"exprs": [rand_expr(rng, 1, cols)]}))
